@@ -276,7 +276,8 @@ class LibraryFailure(Exception):
 
 
 def classify_exception(e):
-    """LibraryFailure if the innermost frame of e's traceback lies in the demeter package, else None."""
+    """LibraryFailure if the innermost frame of e's traceback that is neither third-party nor standard-library code (pandas raising a KeyError on behalf of its
+    caller, say) lies in the demeter package; None if it is harness code."""
     import traceback
 
     if isinstance(e, LibraryFailure):
@@ -285,9 +286,17 @@ def classify_exception(e):
     frames = traceback.extract_tb(e.__traceback__)
     if not lib or not frames:
         return None
-    last = frames[-1]
     pkg = os.path.join(lib, "demeter") + os.sep
-    if not os.path.abspath(last.filename).startswith(pkg):
+    harness = os.path.dirname(os.path.dirname(os.path.abspath(__file__))) + os.sep  # .../mc/
+    last = None
+    for fr in reversed(frames):
+        fn = os.path.abspath(fr.filename)
+        if fn.startswith(pkg):
+            last = fr
+            break
+        if fn.startswith(harness):
+            return None
+    if last is None:
         return None
     where = f"{os.path.relpath(last.filename, lib)}:{last.name}"
     return LibraryFailure(type(e).__name__, str(e)[:300], where, "".join(traceback.format_exception(type(e), e, e.__traceback__))[-6000:])
